@@ -295,7 +295,7 @@ Definition dispatch (kind : string) (args : list string) : string :=
       | [name] =>
         match bytes_of_tok name with
         | Some name =>
-            let labels := split_dots name [] in
+            let labels := query_labels name in
             if String.eqb kind "mdnsq" then
               let dip := [224;0;0;251] in
               verdict kind (send_mdns_query c name)
@@ -361,8 +361,32 @@ Definition dispatch (kind : string) (args : list string) : string :=
     else BADARGS
   end.
 
+(* ---------------------------------------------------------------- *)
+(* census of send sites (harness/cmd/c07/census.go): every place of the library that hands bytes to a
+   connection or socket, with the model function that covers it.  A site that is not listed here comes back
+   as UNMODELLED:<site>, i.e. a correspondence violation. *)
+Definition send_sites : list (string * string) :=
+  [("session.go:arpRequest", "Model.Send.send_arp_request");
+   ("layer_icmp.go:icmp4SendPacket", "Model.Send.icmp4_send_packet");
+   ("layer_icmp.go:icmp6SendPacket", "Model.Send.icmp6_send_packet");
+   ("handlers/arp_spoofer/arp.go:RequestRaw", "Model.SendNdp.send_arp (op 1)");
+   ("handlers/arp_spoofer/arp.go:reply", "Model.SendNdp.send_arp (op 2)");
+   ("handlers/dhcp4_spoofer/send.go:sendDHCP4Packet", "Model.SendUdp.send_dhcp4_packet");
+   ("handlers/dhcp4_spoofer/client.go:SendDiscoverPacket", "Model.SendUdp.send_discover");
+   ("handlers/dns_naming/mdns.go:sendMDNS", "Model.SendUdp.send_mdns");
+   ("handlers/dns_naming/nbns.go:sendNBNS", "Model.SendUdp.send_nbns");
+   ("handlers/dns_naming/ssdp.go:SendSSDPSearch", "Model.SendUdp.send_ssdp_search");
+   ("nic.go:ExecPing", "exempt: OS datagram socket, the kernel builds the frame");
+   ("socketconn.go:WriteTo", "exempt: implementation of the connection");
+   ("socketconn.go:Sendto", "exempt: implementation of the connection")].
+
+Definition site_key (tok : string) : string :=
+  match Text.split "*"%char tok with k :: _ => k | [] => tok end.
+Definition show_site (tok : string) : string :=
+  if existsb (fun s => String.eqb (fst s) (site_key tok)) send_sites then tok else "UNMODELLED:" ++ tok.
+
 Definition dispatch_line (l : string) : string :=
   match words l with
-  | k :: args => dispatch k args
+  | k :: args => if String.eqb k "sites" then out3 (join "," (map show_site args)) "-" "-" else dispatch k args
   | [] => BADARGS
   end.
